@@ -108,7 +108,15 @@ class MarkupMachine(Machine):
             dict of machine configuration parameters.
         """
         if self._needs_update:
-            self._convert_states_and_transitions(self._markup)
+            if getattr(self, 'scoped', self) is not self:
+                # a hierarchical machine that is currently scoped into a nested state (e.g. while add_states
+                # adds the children of a compound state): the markup describes the whole machine, convert from
+                # the root scope. This also covers hierarchical graph classes which do not derive from
+                # HierarchicalMarkupMachine (LockedHierarchicalGraphMachine, HierarchicalAsyncGraphMachine).
+                with self():
+                    self._convert_states_and_transitions(self._markup)
+            else:
+                self._convert_states_and_transitions(self._markup)
             self._needs_update = False
         return self._markup
 
